@@ -8,17 +8,6 @@ impl Clone for Env {
     fn clone(&self) -> (r: Self) ensures r@ == self@ { unimplemented!() }
 }
 
-/// soroban_sdk::Val: an opaque host value
-pub struct Val { pub v: Ghost<SV> }
-impl ToSV for Val {
-    open spec fn sv(&self) -> SV { self.v@ }
-    open spec fn unsv(v: SV) -> Self { Val { v: Ghost(v) } }
-    proof fn lemma_rt(&self) {}
-}
-impl Clone for Val {
-    #[verifier::external_body]
-    fn clone(&self) -> (r: Self) ensures r == *self { unimplemented!() }
-}
 impl From<u32> for Val {
     #[verifier::external_body]
     fn from(x: u32) -> (r: Val) ensures r.sv() == SV::U32(x) { unimplemented!() }
